@@ -176,8 +176,33 @@ class SysInterp(Interp):
     def cls_of(self, s):
         return self.bal_class.get(s[1], "ok") if s[0] == "bal" else self.flow_class.get(s[1], "ok")
 
+    def value_is_nan(self, t):
+        """is the magnitude / tolerance term NaN under the scenario?  np.max of an array holding a NaN is NaN; Python's
+        max(a, b, ...) keeps its FIRST argument unless a later one compares greater - so it is NaN exactly when the first one is;
+        nanmax ignores NaN; products and sums propagate it"""
+        if not isinstance(t, tuple) or not t:
+            return False
+        if isinstance(t[0], tuple):               # a tuple of sub-terms (factors / summands)
+            return any(self.value_is_nan(x) for x in t)
+        if t[0] == "in":
+            return self.flow_class.get(t[1]) == "nan"
+        if t[0] == "fn":
+            name, args = t[1], [x for x in t[2] if isinstance(x, tuple)]
+            if name in ("pymax", "pymin"):
+                return bool(args) and self.value_is_nan(args[0])
+            if name.startswith("nanmax") or name.startswith("nanmin") or name == "nan_to_num":
+                return False
+            if name == "isnan":
+                return False
+            return any(self.value_is_nan(x) for x in args)
+        if t[0] in ("k", "sym"):
+            return False
+        return any(self.value_is_nan(x) for x in t[1:] if isinstance(x, tuple))
+
     def cmp(self, name, subjects, subj_term, other):
         """`subject <name> other` where other is a tolerance-like quantity"""
+        if self.value_is_nan(other):              # a NaN tolerance: every ordered comparison is False
+            return name == "ne"
         classes = {self.cls_of(s) for s in subjects}
         if "nan" in classes:                       # every comparison with NaN is False, != is True
             return name == "ne"
@@ -690,11 +715,13 @@ def run(prog, rep):
     rep.assumptions += ASSUMPTIONS + [
         "every ordered comparison with NaN is False, != is True; max()/min() of an empty iterable raise; sum([]) is the int 0",
         "magnitude classes {within, above, NaN} per process balance and {fine, below -tolerance, NaN} per flow abstract all values; "
-        "python's max() over flows containing NaN (order dependent) is not modelled",
+        "a tolerance is NaN when np.max meets a NaN or Python's max() has a NaN FIRST argument (it keeps its first argument unless a later one compares greater)",
     ]
 
 
 MUTANTS = [
+    {"name": "D20-tolerance-nan-when-first-flow-has-nan", "path": MOD, "find": "[np.nanmax(np.abs(f.values), initial=0.0) for f in self.flows.values()]",
+     "replace": "[np.max(np.abs(f.values)) for f in self.flows.values()]"},
     {"name": "D19-verbose-join-of-integer-items", "path": MOD, "find": '", ".join(str(item) for item in index)', "replace": '", ".join(index)'},
     {"name": "explicit-zero-tolerance-replaced-by-default", "path": MOD, "find": "        if tolerance is None:\n            tolerance = 100 * self._absolute_float_precision",
      "replace": "        tolerance = tolerance or 100 * self._absolute_float_precision"},
